@@ -5,14 +5,17 @@ import asyncio
 import random
 
 from ..sim import srv as sim
+from .pumpfam import PumpFamily, gen_pump_case
 from .srvfam import ConnFamily, gen_case, gen_orderly, get_loop, parse_model
 
 ID = "C04"
-READY = False
+READY = True
 LEAN_TARGETS = ["NauyacaVerif.Props.C04"]
-THEOREMS = [f"NauyacaVerif.C04.{t}" for t in ("handler_gated", "mw_once", "undecided_no_handler", "deny_is_response", "raise_refuses",
-                                               "rejection_not_success", "mwResponses_wf")]
+THEOREMS = ['NauyacaVerif.C04.handler_gated', 'NauyacaVerif.C04.mw_once', 'NauyacaVerif.C04.undecided_no_handler', 'NauyacaVerif.C04.deny_is_response', 'NauyacaVerif.C04.raise_refuses', 'NauyacaVerif.C04.rejection_not_success', 'NauyacaVerif.C04.mwResponses_wf', 'NauyacaVerif.C04.pump_handler_gated']
 EXTRACT = ["mwResponses"]
+LEVEL_TEXT = "Proved for every event list, Gemini and Titan: with a chain configured, handler + upload invocations never exceed consumed allow verdicts, nothing is invoked while the verdict is outstanding, a deny/raise verdict ends in a response and no invocation, a refusal is never relayed as success; lifted to the pump model. Correspondence: scripted verdicts in every order vs reads/timer/disconnect, chains of the REAL RateLimiter/AccessControl/CertificateAuth + scripted components against a reference 'first rejecting component evaluated on its own', chain arguments (normalised URL, peer address, SHA-256 fingerprint of the certificate actually presented, also over the real PyOpenSSL handshake)."
+LEVEL_NOTE = "Trusted: Lean kernel (axioms propext, Classical.choice, Quot.sound only); the hand-written model Srv.step/Srv.pumpStep is tied to /repo by extraction (constants, 'every transport.write sits in _send_response') and by the correspondence run of every check (fake transport with asyncio's write-after-close semantics, virtual-clock loop, scripted handlers; real PyOpenSSL pump over memory BIOs); asyncio's transport/timer contract, OpenSSL's record layer and Python exception texts are assumed, see assumptions."
+TECHNIQUE = 'Lean 4 proof (invariant induction over all event lists of an executable connection state machine) + differential correspondence with the real asyncio protocol objects under a virtual clock'
 ASSUMPTIONS = [
     "the chain's verdict is a parameter of the connection model (allow / deny line / raise, completing at an arbitrary later event); the real RateLimiter, AccessControl and CertificateAuth components are the subject of C10, C09 and C05",
     "family chain evaluates each real component on its own to obtain the reference verdict (first rejecting component wins)",
@@ -205,4 +208,36 @@ class Chain(ConnFamily):
         return f"{'titan' if case['line'].startswith('titan') else 'gemini'}|{'+'.join(s[0] for s in case['chain'])}|{raw[:2].decode('latin1')}|h{obs['h']}u{obs['u']}"
 
 
-FAMILIES = [Gate(), Chain()]
+class PumpGate(PumpFamily):
+    """PyOpenSSL backend (the one used when client certificates are requested): the chain sees the fingerprint of
+    the certificate actually presented in the handshake, and handlers stay gated"""
+
+    name = "pumpgate"
+    quick_n = 150
+    thorough_n = 3000
+
+    def gen(self, rng, n):
+        for _ in range(n):
+            c = gen_pump_case(rng)
+            c["mw"] = True
+            if not any(e[0] in ("ma", "mr", "md", "mn") for e in c["post"]):
+                c["post"].insert(0, rng.choice([["ma"], ["mr"], ["md", "60 Client certificate required\r\n"], ["mn"]]))
+            yield c
+
+    def oracle(self, case, obs):
+        from ..sim import pump as P
+
+        allowed = any(e[0] == "ma" for e in case["post"])
+        if (obs["h"] or obs["u"]) and not allowed:
+            return ("handler-ungated", f"handler ran although the chain never admitted the request: {obs['order']}")
+        if obs["order"] and obs["order"][0] in ("h", "u"):
+            return ("handler-ungated", f"handler ran before the chain was consulted: {obs['order']}")
+        if obs["mwargs"]:
+            want = None if case.get("cert") is None else P.env()[1][case["cert"]][2]
+            got = obs["mwargs"][0]
+            if got[2] != want or got[1] != "198.51.100.9":
+                return ("mw-args", f"chain consulted with ip={got[1]!r} fingerprint={got[2]!r}; the peer is 198.51.100.9 and presented {want!r}")
+        return self.oracle_once(case, obs)
+
+
+FAMILIES = [Gate(), Chain(), PumpGate()]
